@@ -642,6 +642,10 @@ pub fn format_code(
 		ConvTypeV::Char => match value.clone() {
 			Val::Num(n) => {
 				let n = n.get();
+				// `as u32` saturates: negative and fractional numbers should not turn into a valid codepoint
+				if n < 0.0 || n.trunc() != n || n > f64::from(u32::MAX) {
+					bail!("%c expected codepoint, got {n}");
+				}
 				tmp_out.push(
 					std::char::from_u32(n as u32)
 						.ok_or_else(|| InvalidUnicodeCodepointGot(n as u32))?,
